@@ -1,23 +1,23 @@
 #!/bin/sh
 # audit.sh [Cxx...] : runs every catalogued mutant (sa/mutants/<Cxx>/*.patch) and every kept seed
-# (seeded/<Cxx>-*/patch.diff) against that property's check on a scratch copy; prints a summary.
+# (seeded/<Cxx>-*/patch.diff) against that property's check on a scratch copy (6 at a time); prints a summary.
 export GOFLAGS=-mod=mod GOPROXY=off GOSUMDB=off GOTOOLCHAIN=local; unset GOWORK
-PROPS="$@"; [ -z "$PROPS" ] && PROPS=$(ls /verif/sa/mutants | sort)
-tot=0; caught=0
-for c in $PROPS; do
-  for p in /verif/sa/mutants/$c/*.patch /verif/seeded/$c-*/patch.diff; do
-    [ -f "$p" ] || continue
-    tot=$((tot+1))
-    D=$(mktemp -d /tmp/sipsp-aud.XXXXXX); rsync -a --exclude .git /repo/ $D/
-    if ! (cd $D && patch -s -p1 < $p >/dev/null 2>&1); then echo "STALE  $c $(echo $p | sed 's|/verif/||')"; rm -rf $D; continue; fi
-    /verif/bin/sipsp-sa check $c --repo $D --no-evidence >/dev/null 2>&1; rc=$?
-    if [ $rc = 1 ]; then caught=$((caught+1)); else
-      # seeds may be caught by a sibling property's check (recorded in meta.json)
-      alt=""; m=$(dirname $p)/meta.json
-      if [ -f "$m" ]; then for q in $(python3 -c "import json,sys;print(' '.join(json.load(open('$m')).get('other_property_checks',{}).keys()))"); do /verif/bin/sipsp-sa check $q --repo $D --no-evidence >/dev/null 2>&1; [ $? = 1 ] && alt="$alt$q "; done; fi
-      if [ -n "$alt" ]; then caught=$((caught+1)); echo "SIBLING $c $(echo $p | sed 's|/verif/||') caught by $alt"; else echo "MISSED $c $(echo $p | sed 's|/verif/||')"; fi
-    fi
-    rm -rf $D
-  done
-done
+if [ "$1" = "--one" ]; then
+  c=$2; p=$3
+  D=$(mktemp -d /tmp/sipsp-aud.XXXXXX); rsync -a --exclude .git /repo/ $D/
+  if ! (cd $D && patch -s -p1 < $p >/dev/null 2>&1); then echo "STALE  $c $(echo $p | sed 's|/verif/||')"; rm -rf $D; exit 0; fi
+  /verif/bin/sipsp-sa check $c --repo $D --no-evidence >/dev/null 2>&1; rc=$?
+  if [ $rc = 1 ]; then echo "CAUGHT $c $(echo $p | sed 's|/verif/||')"; else
+    # seeds may be caught by a sibling property's check (recorded in meta.json)
+    alt=""; m=$(dirname $p)/meta.json
+    if [ -f "$m" ]; then for q in $(python3 -c "import json,sys;print(' '.join(json.load(open('$m')).get('other_property_checks',{}).keys()))"); do /verif/bin/sipsp-sa check $q --repo $D --no-evidence >/dev/null 2>&1; [ $? = 1 ] && alt="$alt$q "; done; fi
+    if [ -n "$alt" ]; then echo "SIBLING $c $(echo $p | sed 's|/verif/||') caught by $alt"; else echo "MISSED $c $(echo $p | sed 's|/verif/||')"; fi
+  fi
+  rm -rf $D
+  exit 0
+fi
+PROPS="$@"; [ -z "$PROPS" ] && PROPS="C01 C02 C03 C04 C05 C06 C07 C08 C09 C10 C11 C12 C13 C14 C15 C16 C17 C18 C19 C20"
+OUT=$(for c in $PROPS; do for p in /verif/sa/mutants/$c/*.patch /verif/seeded/$c-*/patch.diff; do [ -f "$p" ] && echo "$c $p"; done; done | xargs -P 6 -n 2 "$0" --one)
+echo "$OUT" | grep -v "^CAUGHT" | sort
+tot=$(echo "$OUT" | grep -c .); caught=$(echo "$OUT" | grep -c "^CAUGHT\|^SIBLING")
 echo "audit: $caught / $tot caught"
